@@ -4,7 +4,7 @@ rows = []
 for d in sorted(glob.glob('/verif/seeded/C*')):
     m = json.load(open(os.path.join(d, 'meta.json')))
     det = m.get('detected_by', 'not yet run')
-    rows.append('| `%s` | %s | %s | %s | %s |' % (os.path.basename(d), m.get('property', ''), (m.get('summary', '')[:260]).replace('|', '\\|').replace('\n', ' '),
+    rows.append('| `%s` | %s | %s | %s | %s |' % (os.path.basename(d), m.get('property', ''), ((m.get('summary') or m.get('description') or '')[:260]).replace('|', '\\|').replace('\n', ' '),
                                                (m.get('needs', '')[:200]).replace('|', '\\|').replace('\n', ' '), det.replace('|', '\\|')))
 txt = '| seeded change | property | what it does | needs | caught by |\n|---|---|---|---|---|\n' + '\n'.join(rows) + '\n'
 p = '/verif/DESIGN.md'
